@@ -168,6 +168,20 @@ DJV_CMD(pe_add, "pe.add")
     auto id = lib.playlist_entity().add_back(row, a.at(4) == "1");
     return "id=" + std::to_string((long long)id);
 }
+// addforeign <crate-var> <track-var> <uuid-tag>: what other software sharing the library does — an entry for a
+// track of ANOTHER database (tag > 0) that carries the same numeric id as the given track of this library
+// is appended to the playlist of the crate (table-level add_back on the ids behind the two handles).
+DJV_CMD(addforeign, "addforeign")
+{
+    auto& lib = v2lib();
+    // other software only adds entries to playlists that exist
+    if (!CR(a.at(1)).is_valid()) return "skipped";
+    ev2::playlist_entity_row row{
+        ev2::PLAYLIST_ENTITY_ROW_ID_NONE, CR(a.at(1)).id(), TR(a.at(2)).id(), uuid_of_tag(lib, parse_i64(a.at(3))),
+        ev2::PLAYLIST_ENTITY_NO_NEXT_ENTITY_ID, ev2::PLAYLIST_ENTITY_DEFAULT_MEMBERSHIP_REFERENCE};
+    lib.playlist_entity().add_back(row, false);
+    return "";
+}
 DJV_CMD(pe_remove, "pe.remove")
 {
     auto& lib = v2lib();
